@@ -581,6 +581,19 @@ func checkAdminPredicates(c *km.Ctx, s *km.Sem) {
 							}
 						}
 					}
+					// a configured admin group compared directly with one of the groups looked up for this user
+					if f.Op == token.EQL && f.X != nil && f.Y != nil {
+						for _, pr := range [][2]ssa.Value{{f.X, f.Y}, {f.Y, f.X}} {
+							if !isConfigElem(pr[0], "AdminGroups") {
+								continue
+							}
+							if u, isU := km.Unwrap(pr[1]).(*ssa.UnOp); isU && u.Op == token.MUL {
+								if ia, isIA := u.X.(*ssa.IndexAddr); isIA && derivesFromUserGroups(ia.X, fn, 0) {
+									return true
+								}
+							}
+						}
+					}
 					if list, elem, isM := membership(f); isM {
 						// user ∈ configured admin names
 						if elem == ssa.Value(km.ParamAt(fn, 1)) && isConfigList(list, "AdminUsers") {
